@@ -1,4 +1,4 @@
-use crate::internal::{consts, MiniAllocator, ObjType, SectorInit};
+use crate::internal::{consts, MiniAllocator, ObjType, SectorInit, Version};
 use std::io::{self, BufRead, Read, Seek, SeekFrom, Write};
 #[cfg(not(cfb_verif))]
 use std::sync::{Arc, RwLock, Weak};
@@ -346,6 +346,12 @@ fn read_data_from_stream<F: Read + Seek>(
     Ok(num_bytes)
 }
 
+/// The largest stream length that a file of this version can record.
+fn max_stream_len(version: Version) -> u64 {
+    (consts::MAX_REGULAR_SECTOR as u64 * version.sector_len() as u64)
+        .min(version.stream_len_mask())
+}
+
 fn write_data_to_stream<F: Read + Write + Seek>(
     minialloc: &mut MiniAllocator<F>,
     stream_id: u32,
@@ -373,6 +379,14 @@ fn write_data_to_stream<F: Read + Write + Seek>(
     }
     let new_stream_len =
         old_stream_len.max(buf_offset_from_start + buf.len() as u64);
+    let max_stream_len = max_stream_len(minialloc.version());
+    if new_stream_len > max_stream_len {
+        invalid_input!(
+            "Cannot grow stream to {} bytes (the maximum is {} bytes)",
+            new_stream_len,
+            max_stream_len
+        );
+    }
     let new_start_sector = if old_start_sector == consts::END_OF_CHAIN {
         // Case 1: The stream has no existing chain.  The stream is empty, and
         // we are writing at the start.  (A damaged file can hold an entry
@@ -476,10 +490,11 @@ fn resize_stream<F: Read + Write + Seek>(
         }
         (dir_entry.start_sector, dir_entry.stream_len)
     };
-    // No file can hold more than MAX_REGULAR_SECTOR sectors; refusing larger
-    // lengths up front also keeps the sector arithmetic below from overflowing.
-    let max_stream_len = consts::MAX_REGULAR_SECTOR as u64
-        * minialloc.version().sector_len() as u64;
+    // No file can hold more than MAX_REGULAR_SECTOR sectors, and a version 3
+    // directory entry records only 32 bits of the length (the rest is masked
+    // off when the file is read back).  Refusing larger lengths up front also
+    // keeps the sector arithmetic below from overflowing.
+    let max_stream_len = max_stream_len(minialloc.version());
     if new_stream_len > max_stream_len {
         invalid_input!(
             "Cannot resize stream to {} bytes (the maximum is {} bytes)",
